@@ -179,7 +179,10 @@ def check_case(case, seed, entity_mode="random", options_override=None, want_num
                 tol = (2e-4 if "32" in scalar or "64" == scalar[-2:] and "complex64" == scalar else 1e-9)
                 tol = 2e-4 if scalar in ("float32", "complex64") else 1e-9
                 scale = max(np.max(np.abs(exp)), 1e-3)    # inputs are O(1): below 1e-3 the comparison is absolute (tensors that vanish identically)
-                errs = [float(np.max(np.abs(Ak - exp)) / scale) for Ak in candidates]
+                if not np.all(np.isfinite(exp)):
+                    raise oracle.Unsupported("the oracle's value is not finite for these data")
+                # a kernel that returns NaN / inf where the specification is finite disagrees (NaN compares false with everything)
+                errs = [float(np.max(np.abs(Ak - exp)) / scale) if np.all(np.isfinite(Ak)) else float("inf") for Ak in candidates]
                 # a tensor that vanishes identically: kernel and oracle both return rounding noise whose size depends on
                 # the magnitudes multiplied before the cancellation; with O(1) data anything below 1e-8 is zero
                 errs = [0.0 if (np.max(np.abs(exp)) <= 1e-8 and np.max(np.abs(Ak)) <= 1e-8) else x for Ak, x in zip(candidates, errs)]
@@ -450,7 +453,9 @@ def check_expression_case(case, seed):
                 exp = oracle.reference_expression(expr, permuted_facet_points(pts0, code), cell, wvals, cvals, entity=ent).reshape(-1)
                 tol = 2e-4 if scalar in ("float32", "complex64") else 1e-9
                 scale = max(np.max(np.abs(exp)), 1e-3)    # inputs are O(1): below 1e-3 the comparison is absolute (tensors that vanish identically)
-                err = float(np.max(np.abs(A - exp)) / scale) if A.shape == exp.shape else float("inf")
+                if not np.all(np.isfinite(exp)):
+                    raise oracle.Unsupported("the oracle's value is not finite for these data")
+                err = float(np.max(np.abs(A - exp)) / scale) if A.shape == exp.shape and np.all(np.isfinite(A)) else float("inf")
                 if A.shape == exp.shape and np.max(np.abs(exp)) <= 1e-8 and np.max(np.abs(A)) <= 1e-8:
                     err = 0.0      # identically vanishing value: rounding noise on both sides
                 worst = max(worst, err)
